@@ -475,9 +475,13 @@ class Client(ClientLike):
                 )
                 msg_list.remove(mt)
 
+        # remember which of the requested types were paused on entry so that exit can restore them
+        was_paused = [mt for mt in msg_list if mt in self.paused_subscribed_types]
         self.subscribe(msg_list)
         yield
         self.unsubscribe(msg_list)
+        if was_paused:
+            self.pause_subscription(was_paused)
 
     @contextmanager
     def paused_subscription_context(self, msg_list: Iterable[int]):
